@@ -45,7 +45,7 @@ theorem decodeField_unknown (cfg : Cfg) (num tag : Nat) (st : St) : ∀ (fs : Fi
     decodeField cfg fs num tag st rec = match consumeUnknown tag st with
       | some st' => .ok rec st'
       | none => .fail
-  | .nil, rec, _, _ => by rw [decodeField]
+  | .nil, rec, _, _ => by rw [decodeField]; cases consumeUnknown tag st <;> rfl
   | .cons n t d rest, rec, hs, hn => by
     cases rec <;> simp only [shapeOf, Bool.false_eq_true] at hs
     rename_i x xs
@@ -98,15 +98,18 @@ theorem agg_skips_unknown (dbg : Bool) (b : Bool) (fs : Fields) (hfs : wfFields 
     rw [this, Nat.shiftRight_eq_div_pow]; omega
   simp only [hb, if_true, readTag, hr, Nat.mod_eq_of_lt htag, hshift]
   rw [decodeField_unknown _ num _ _ fs d hd hun, hcu]
-  have hnle : ¬ ((st.adv (encVarint (num * 8 + w)).length).adv payload.length).pos ≤ st.pos := by
+  simp only [St.adv_adv, List.length_append]
+  have hnle : ¬ (st.adv ((encVarint (num * 8 + w)).length + payload.length)).pos ≤ st.pos := by
     simp only [St.adv_pos]; omega
-  simp only [hnle, if_false, St.adv_adv, List.length_append]
+  simp only [hnle, if_false]
   have hk3 : (encVarint (num * 8 + w)).length + payload.length ≤ st.avail := by omega
   have hle := st.avail_le_length
   exact loopN_fuel St.hasBytes _
-    (fun s a hs _ a' s' e => aggBody_adv dbg fs hfs s a a' s' hs e) _ _ _ d (St.WF_adv hwf hk3)
-    (by unfold fuelOf; simp only [St.adv_bs, List.length_drop]; omega)
-    (by unfold fuelOf; simp only [St.adv_bs, List.length_drop]; omega)
+    (fun s a hs _ a' s' e => aggBody_adv dbg fs hfs s a a' s' hs e) (fuelOf st - 1)
+    (fuelOf (st.adv ((encVarint (num * 8 + w)).length + payload.length)))
+    (st.adv ((encVarint (num * 8 + w)).length + payload.length)) d (St.WF_adv hwf hk3)
+    (by simp only [fuelOf, St.adv_bs, List.length_drop]; omega)
+    (by simp only [fuelOf, St.adv_bs, List.length_drop]; omega)
 
 /-- **A field parse touches only its own member**: when the tag carries the number of the member at some position,
 every other entry of the object (those before, `rpre`, and after, `xs`) is left as it was. -/
